@@ -1084,13 +1084,22 @@ def rule_T6(ctx, rid='T6'):
             if e.member in G_SHELL.members and e.op in ('DELETE', 'SELECT', 'SLICE', 'INIT',
                                                         'REBUILD', 'REORDER', 'XFORM', 'SET'):
                 dels.append((nid, e))
+    from .sampler_rules import helper_event_calls
+    helper_dels = helper_event_calls(prog, run, set(G_SHELL.members),
+                                     ops={'DELETE', 'SELECT', 'SLICE', 'INIT', 'REBUILD',
+                                          'REORDER', 'XFORM', 'SET'})
+    dels += helper_dels
     ctx.require(dels, 'Sampler.run: removal of empty shells not found')
     exp_true = {x.id for x in cfg.nodes if x.kind == 'stmt' and isinstance(x.ast, ast.Assign)
                 and dotted(x.ast.targets[0]) == 'self.explored' and
                 isinstance(x.ast.value, ast.Constant) and x.ast.value.value is True}
     # removal inside a loop over an index array must go from the highest index down (a pop
     # shifts every later shell), and must select exactly the empty shells
-    for lp in walk_no_nested(run.node):
+    from .resolve import helper_closure
+    closure_, _ = helper_closure(prog, run.cls, {run.qualname})
+    loop_funcs = [run] + [prog.functions[q] for q in sorted(closure_) if q != run.qualname]
+    all_loops = [lp for lf in loop_funcs for lp in walk_no_nested(lf.node)]
+    for lp in all_loops:
         if not (isinstance(lp, ast.For) and isinstance(lp.target, ast.Name)):
             continue
         inner = [e for nid, e in dels if e.op == 'DELETE' and any(
